@@ -16,7 +16,7 @@ theorem unparsable_sound_complete (d : Doc) (now : Date) (inFam : Bool) (p l : N
         ∃ e ∈ i.events, ∃ x ∈ e.dates, x.valid = false ∧ x.label = l) ∨
       (inFam = true ∧ ∃ f, Rec.fam f ∈ d ∧ f.ptr = p ∧
         ∃ e ∈ f.events, ∃ x ∈ e.dates, x.valid = false ∧ x.label = l) := by
-  rw [mem_warnings_cases]
+  rw [warnings, mem_oncePerPair_other (by simp [Warning.kind]) (by simp [Warning.kind]), mem_warnings_cases]
   constructor
   · rintro (⟨i, hi, h | h | h | h⟩ | ⟨f, hf, h | h | h | h | h⟩)
     all_goals try wrong_kind h
@@ -32,7 +32,7 @@ theorem unparsable_sound_complete (d : Doc) (now : Date) (inFam : Bool) (p l : N
 theorem multiple_sexes_sound_complete (d : Doc) (now : Date) (p n : Nat) :
     Warning.multipleSexes p n ∈ warnings d now ↔
       ∃ i, Rec.indi i ∈ d ∧ i.ptr = p ∧ i.sexes.length = n ∧ 1 < n := by
-  rw [mem_warnings_cases]
+  rw [warnings, mem_oncePerPair_other (by simp [Warning.kind]) (by simp [Warning.kind]), mem_warnings_cases]
   constructor
   · rintro (⟨i, hi, h | h | h | h⟩ | ⟨f, hf, h | h | h | h | h⟩)
     all_goals try wrong_kind h
@@ -50,7 +50,7 @@ theorem inverse_spouses_sound_complete (d : Doc) (now : Date) (fp hp wp : Nat) :
     Warning.inverseSpouses fp hp wp ∈ warnings d now ↔
       ∃ f, Rec.fam f ∈ d ∧ f.ptr = fp ∧ f.husb = some hp ∧ f.wife = some wp ∧
         firstSex (indiOf d hp) = some .f ∧ firstSex (indiOf d wp) = some .m := by
-  rw [mem_warnings_cases]
+  rw [warnings, mem_oncePerPair_other (by simp [Warning.kind]) (by simp [Warning.kind]), mem_warnings_cases]
   constructor
   · rintro (⟨i, hi, h | h | h | h⟩ | ⟨f, hf, h | h | h | h | h⟩)
     all_goals try wrong_kind h
@@ -92,16 +92,39 @@ theorem birthOf_bind_noGen {d : Doc} (hx : ExactDates d) (o : Option Nat) :
 /-- ChildBornBeforeParent(parent, child) is reported in the context of family `fp` exactly when
     `child` is a CHIL of that family, `parent` its HUSB or WIFE, both have a valid birth date and
     the child's birth day is strictly before the parent's. -/
-theorem child_born_before_parent_sound_complete (d : Doc) (now : Date) (hx : ExactDates d)
+theorem raw_cbbp_fam {d : Doc} {f : Fam} {fp p c : Nat}
+    (h : Warning.childBornBeforeParent fp p c ∈ childrenBornBeforeParentsRaw d f) : fp = f.ptr := by
+  simp only [childrenBornBeforeParentsRaw, List.mem_flatMap] at h
+  obtain ⟨c', _, h⟩ := h
+  split at h
+  · simp at h
+  · simp only [List.mem_append] at h
+    rcases h with h | h <;> split at h <;> simp at h <;> exact h.1
+
+/-- inside one family the pair set only removes repetitions -/
+theorem mem_cbbp_fam {d : Doc} {f : Fam} {fp p c : Nat} :
+    Warning.childBornBeforeParent fp p c ∈ childrenBornBeforeParents d f ↔
+      Warning.childBornBeforeParent fp p c ∈ childrenBornBeforeParentsRaw d f := by
+  constructor
+  · exact fun h => (oncePerPair_sublist _).subset h
+  · intro h
+    obtain ⟨f', hf'⟩ := opp_cbbp_kept _ [] [] (by simp) ⟨fp, h⟩
+    have e1 := raw_cbbp_fam ((oncePerPair_sublist _).subset hf')
+    have e2 := raw_cbbp_fam h
+    rw [e2, ← e1]; exact hf'
+
+/-- what the walk collects before the document-level pair set: the condition, family by family -/
+theorem raw_child_born_before_parent (d : Doc) (now : Date) (hx : ExactDates d)
     (fp p c : Nat) :
-    Warning.childBornBeforeParent fp p c ∈ warnings d now ↔
+    Warning.childBornBeforeParent fp p c ∈ rawWarnings d now ↔
       ∃ f, Rec.fam f ∈ d ∧ f.ptr = fp ∧ c ∈ f.chil ∧ (f.husb = some p ∨ f.wife = some p) ∧
         ∃ bc bp, birthDay d c = some bc ∧ birthDay d p = some bp ∧ bc < bp := by
   rw [mem_warnings_cases]
   constructor
   · rintro (⟨i, hi, h | h | h | h⟩ | ⟨f, hf, h | h | h | h | h⟩)
     all_goals try wrong_kind h
-    simp only [childrenBornBeforeParents, List.mem_flatMap] at h
+    rw [mem_cbbp_fam] at h
+    simp only [childrenBornBeforeParentsRaw, List.mem_flatMap] at h
     obtain ⟨c', hc', h⟩ := h
     split at h
     · simp at h
@@ -147,7 +170,8 @@ theorem child_born_before_parent_sound_complete (d : Doc) (now : Date) (hx : Exa
     obtain ⟨tp, htp, rfl⟩ := birthDay_eq_some.mp hbp
     have hfc := (birthOf_full hx htc).1
     have hfp := (birthOf_full hx htp).1
-    simp only [childrenBornBeforeParents, List.mem_flatMap]
+    rw [mem_cbbp_fam]
+    simp only [childrenBornBeforeParentsRaw, List.mem_flatMap]
     refine ⟨c, hc, ?_⟩
     have hv : validO (birthOf (indiOf d c)) = true := (validO_iff (birthOf_noGen hx)).mpr ⟨tc, htc⟩
     simp only [hv, Bool.not_true, Bool.false_eq_true, if_false, List.mem_append]
@@ -167,9 +191,34 @@ theorem child_born_before_parent_sound_complete (d : Doc) (now : Date) (hx : Exa
       rw [hh, Option.bind_some] at this h2
       simp [this, h2, hh]
 
-/-- membership of a sibling warning in the document's report is membership in its family's loop -/
+/-- ChildBornBeforeParent(parent, child) is reported — once, in the context of the first family
+    in file order that warrants it — exactly when `child` is a CHIL of some family, `parent` its
+    HUSB or WIFE, both have a valid birth date and the child's birth day is strictly before the
+    parent's. -/
+theorem child_born_before_parent_sound_complete (d : Doc) (now : Date) (hx : ExactDates d)
+    (p c : Nat) :
+    (∃ fp, Warning.childBornBeforeParent fp p c ∈ warnings d now) ↔
+      ∃ f, Rec.fam f ∈ d ∧ c ∈ f.chil ∧ (f.husb = some p ∨ f.wife = some p) ∧
+        ∃ bc bp, birthDay d c = some bc ∧ birthDay d p = some bp ∧ bc < bp := by
+  constructor
+  · rintro ⟨fp, h⟩
+    obtain ⟨f, hf, _, rest⟩ := (raw_child_born_before_parent d now hx fp p c).mp
+      ((oncePerPair_sublist _).subset h)
+    exact ⟨f, hf, rest⟩
+  · rintro ⟨f, hf, rest⟩
+    exact opp_cbbp_kept _ [] [] (by simp)
+      ⟨f.ptr, (raw_child_born_before_parent d now hx f.ptr p c).mpr ⟨f, hf, rfl, rest⟩⟩
+
+/-- … and the family named in the warning is one that warrants it -/
+theorem child_born_before_parent_names_family (d : Doc) (now : Date) (hx : ExactDates d)
+    (fp p c : Nat) (h : Warning.childBornBeforeParent fp p c ∈ warnings d now) :
+    ∃ f, Rec.fam f ∈ d ∧ f.ptr = fp ∧ c ∈ f.chil ∧ (f.husb = some p ∨ f.wife = some p) ∧
+      ∃ bc bp, birthDay d c = some bc ∧ birthDay d p = some bp ∧ bc < bp :=
+  (raw_child_born_before_parent d now hx fp p c).mp ((oncePerPair_sublist _).subset h)
+
+/-- membership of a sibling warning in what the walk collects is membership in its family's loop -/
 theorem mem_siblings (d : Doc) (now : Date) (fp a b : Nat) :
-    Warning.siblingsBornTooClose fp a b ∈ warnings d now ↔
+    Warning.siblingsBornTooClose fp a b ∈ rawWarnings d now ↔
       ∃ f, Rec.fam f ∈ d ∧ f.ptr = fp ∧ (a, b) ∈ (siblingsLoop d f).1 := by
   rw [mem_warnings_cases]
   constructor
@@ -190,9 +239,9 @@ theorem mem_siblings (d : Doc) (now : Date) (fp a b : Nat) :
 /-- SiblingsBornTooClose{a, b} is reported (in one order or the other) in the context of family
     `fp` exactly when `a ≠ b` are both CHIL of that family, both have a valid birth date, and the
     birth days are at least 2 and fewer than 274 days apart. -/
-theorem siblings_sound_complete (d : Doc) (now : Date) (hx : ExactDates d) (fp a b : Nat) :
-    (Warning.siblingsBornTooClose fp a b ∈ warnings d now ∨
-     Warning.siblingsBornTooClose fp b a ∈ warnings d now) ↔
+theorem raw_siblings (d : Doc) (now : Date) (hx : ExactDates d) (fp a b : Nat) :
+    (Warning.siblingsBornTooClose fp a b ∈ rawWarnings d now ∨
+     Warning.siblingsBornTooClose fp b a ∈ rawWarnings d now) ↔
       ∃ f, Rec.fam f ∈ d ∧ f.ptr = fp ∧ a ∈ f.chil ∧ b ∈ f.chil ∧ SibSpec d a b := by
   rw [mem_siblings, mem_siblings]
   constructor
@@ -212,12 +261,33 @@ theorem siblings_sound_complete (d : Doc) (now : Date) (hx : ExactDates d) (fp a
     · exact Or.inl ⟨f, hf, rfl, hq⟩
     · exact Or.inr ⟨f, hf, rfl, hq⟩
 
-/-- two warnings are about the same pair of people: the same unordered pair of siblings, or the
-    same (parent, child) -/
-def samePair : Warning → Warning → Prop
-  | .siblingsBornTooClose _ a b, .siblingsBornTooClose _ a' b' => (a = a' ∧ b = b') ∨ (a = b' ∧ b = a')
-  | .childBornBeforeParent _ p c, .childBornBeforeParent _ p' c' => p = p' ∧ c = c'
-  | _, _ => False
+/-- SiblingsBornTooClose{a, b} is reported — once, in one order or the other, in the context of
+    the first family in file order that warrants it — exactly when `a ≠ b` are both CHIL of some
+    family, both have a valid birth date, and the birth days are at least 2 and fewer than 274
+    days apart. -/
+theorem siblings_sound_complete (d : Doc) (now : Date) (hx : ExactDates d) (a b : Nat) :
+    (∃ fp, Warning.siblingsBornTooClose fp a b ∈ warnings d now ∨
+           Warning.siblingsBornTooClose fp b a ∈ warnings d now) ↔
+      ∃ f, Rec.fam f ∈ d ∧ a ∈ f.chil ∧ b ∈ f.chil ∧ SibSpec d a b := by
+  constructor
+  · rintro ⟨fp, h⟩
+    have h' : Warning.siblingsBornTooClose fp a b ∈ rawWarnings d now ∨
+        Warning.siblingsBornTooClose fp b a ∈ rawWarnings d now :=
+      h.imp (fun h => (oncePerPair_sublist _).subset h) (fun h => (oncePerPair_sublist _).subset h)
+    obtain ⟨f, hf, _, rest⟩ := (raw_siblings d now hx fp a b).mp h'
+    exact ⟨f, hf, rest⟩
+  · rintro ⟨f, hf, rest⟩
+    rcases (raw_siblings d now hx f.ptr a b).mpr ⟨f, hf, rfl, rest⟩ with h | h
+    · exact opp_sib_kept _ [] [] (by simp [pairsHas]) ⟨f.ptr, h⟩
+    · obtain ⟨f', hf'⟩ := opp_sib_kept _ [] [] (by simp [pairsHas]) ⟨f.ptr, h⟩
+      exact ⟨f', hf'.symm⟩
+
+/-- **once_per_pair** (full): in the report of any document no (parent, child) pair and no
+    unordered pair of siblings is reported twice — whatever the families, duplicate family records
+    or repeated CHIL lines (the pair sets of `Warnings.oncePerPair`). -/
+theorem once_per_pair (d : Doc) (now : Date) :
+    (warnings d now).Pairwise fun w w' => ¬ samePair w w' :=
+  (opp_once (rawWarnings d now) [] []).1
 
 /-- once per pair, siblings: within a family no unordered pair of siblings is reported twice,
     whatever the CHIL lines are (the pair set of the loop). -/
@@ -236,7 +306,7 @@ theorem event_order_sound_complete (d : Doc) (now : Date) (hx : ExactDates d)
     Warning.incorrectEventOrder p k2 (.ok d2) k1 (.ok d1) ∈ warnings d now ↔
       ∃ i, Rec.indi i ∈ d ∧ i.ptr = p ∧ ∃ g1 g2, groupOf k1 = some g1 ∧ groupOf k2 = some g2 ∧
         g1 < g2 ∧ Dated i k1 (.ok d1) ∧ Dated i k2 (.ok d2) ∧ dayOf d2 < dayOf d1 := by
-  rw [mem_warnings_cases]
+  rw [warnings, mem_oncePerPair_other (by simp [Warning.kind]) (by simp [Warning.kind]), mem_warnings_cases]
   constructor
   · rintro (⟨i, hi, h | h | h | h⟩ | ⟨f, hf, h | h | h | h | h⟩)
     all_goals try wrong_kind h
@@ -293,7 +363,7 @@ theorem married_sound_complete (d : Doc) (now : Date) (hx : ExactDates d) (lo hi
         have h1 := hw.indi (indiOf_some hi).1 he' ht'
         have h2 := hw.fam hf he ht
         unfold absd; split <;> omega)
-  rw [mem_warnings_cases]
+  rw [warnings, mem_oncePerPair_other (by simp [Warning.kind]) (by simp [Warning.kind]), mem_warnings_cases]
   constructor
   · rintro (⟨i, hi, h | h | h | h⟩ | ⟨f, hf, h | h | h | h | h⟩)
     all_goals try wrong_kind h
@@ -337,7 +407,7 @@ theorem too_old_sound_complete (d : Doc) (now : Date) (hx : ExactDates d) (hnow 
   have key : ∀ i, Rec.indi i ∈ d → _ := fun i hi =>
     tooOld_iff (i := i) (now := now) (hx.fullEvs hi) hnow
       (fun e he t ht => by have := (hpast.indi hi he ht).2; omega)
-  rw [mem_warnings_cases]
+  rw [warnings, mem_oncePerPair_other (by simp [Warning.kind]) (by simp [Warning.kind]), mem_warnings_cases]
   constructor
   · rintro (⟨i, hi, h | h | h | h⟩ | ⟨f, hf, h | h | h | h | h⟩)
     all_goals try wrong_kind h
@@ -350,113 +420,18 @@ theorem too_old_sound_complete (d : Doc) (now : Date) (hx : ExactDates d) (hnow 
     have := (key i hi).mpr ⟨tb, td, hb, hd, hy⟩
     exact mem_tooOld.mpr ⟨rfl, this.1, this.2⟩
 
-/-! ### once per pair: child born before parent
+/-! ### once per pair: regression about the rule before the repair
 
-  Full statement (kept visible, **false of the code**, DESIGN defect 24):
-    `∀ d now, ((warnings d now).filterMap cbbpPair).Nodup`
-  The family check reports a (parent, child) pair once per CHIL line and per family that lists
-  it; there is no pair set as in the sibling loop. -/
+  Before fixes/C20-once-per-pair.patch the family check reported a (parent, child) pair once per
+  CHIL line and per family that lists it (DESIGN defect 24).  The walk still *collects* the pair
+  once per family (`rawWarnings`) and the family loop once per CHIL line
+  (`childrenBornBeforeParentsRaw`); the two `oncePerPair` passes are what makes `once_per_pair`
+  true.  The old witnesses are kept as a regression example. -/
 
 /-- the (parent, child) of a child-born-before-parent warning -/
 def cbbpPair : Warning → Option (Nat × Nat)
   | .childBornBeforeParent _ p c => some (p, c)
   | _ => none
-
-/-- the (parent, child) edges of a family: one per CHIL line and present spouse -/
-def famEdges (f : Fam) : List (Nat × Nat) :=
-  f.chil.flatMap fun c =>
-    (match f.husb with | some h => [(h, c)] | none => []) ++
-    (match f.wife with | some w => [(w, c)] | none => [])
-
-/-- all (parent, child) edges of the document, with multiplicity, in file order -/
-def edges (d : Doc) : List (Nat × Nat) :=
-  d.flatMap fun | .fam f => famEdges f | .indi _ => []
-
-theorem filterMap_cbbp_nil {ws : List Warning} (h : ∀ w ∈ ws, w.kind ≠ .cbbp) :
-    ws.filterMap cbbpPair = [] := by
-  rw [List.filterMap_eq_nil_iff]
-  intro w hw
-  have := h w hw
-  cases w <;> simp [cbbpPair, Warning.kind] at this ⊢
-
-theorem cbbp_sublist (d : Doc) (f : Fam) :
-    List.Sublist ((childrenBornBeforeParents d f).filterMap cbbpPair) (famEdges f) := by
-  unfold childrenBornBeforeParents famEdges
-  generalize f.chil = cs
-  induction cs with
-  | nil => simp
-  | cons c cs ih =>
-    simp only [List.flatMap_cons, List.filterMap_append]
-    refine List.Sublist.append ?_ ih
-    split
-    · simp
-    · simp only [List.filterMap_append]
-      refine List.Sublist.append ?_ ?_
-      · split
-        · rename_i hc
-          simp only [Bool.and_eq_true] at hc
-          obtain ⟨t, ht⟩ := validO_some hc.1
-          cases hh : f.husb with
-          | none => simp [hh, birthOf] at ht
-          | some h => simp [cbbpPair]
-        · simp
-      · split
-        · rename_i hc
-          simp only [Bool.and_eq_true] at hc
-          obtain ⟨t, ht⟩ := validO_some hc.1
-          cases hh : f.wife with
-          | none => simp [hh, birthOf] at ht
-          | some h => simp [cbbpPair]
-        · simp
-
-theorem rec_cbbp_sublist (d : Doc) (now : Date) (r : Rec) :
-    List.Sublist ((recWarnings d now r).filterMap cbbpPair)
-      (match r with | .fam f => famEdges f | .indi _ => []) := by
-  cases r with
-  | indi i =>
-    rw [filterMap_cbbp_nil]
-    · exact List.Sublist.refl _
-    · intro w hw
-      simp only [recWarnings, indiOwn, List.mem_append] at hw
-      rcases hw with ((hw | hw) | hw) | hw
-      · rw [kind_orderFrom hw]; decide
-      · rw [kind_tooOld hw]; decide
-      · rw [kind_sexes hw]; decide
-      · rw [kind_unparsable hw]; decide
-  | fam f =>
-    simp only [recWarnings, famOwn, List.filterMap_append]
-    have e1 : (siblingsBornTooClose d f).filterMap cbbpPair = [] :=
-      filterMap_cbbp_nil fun w hw => by rw [kind_sib hw]; decide
-    have e2 : (marriedOutOfRange d f).filterMap cbbpPair = [] :=
-      filterMap_cbbp_nil fun w hw => by rw [kind_marriedFrom hw]; decide
-    have e3 : (inverseSpouses d f).filterMap cbbpPair = [] :=
-      filterMap_cbbp_nil fun w hw => by rw [kind_inv hw]; decide
-    have e4 : (unparsable true f.ptr f.events).filterMap cbbpPair = [] :=
-      filterMap_cbbp_nil fun w hw => by rw [kind_unparsable hw]; decide
-    rw [e1, e2, e3, e4]
-    simpa using cbbp_sublist d f
-
-/-- the reported (parent, child) pairs are a sub-list of the document's edges … -/
-theorem cbbp_pairs_sublist (d : Doc) (now : Date) :
-    List.Sublist ((warnings d now).filterMap cbbpPair) (edges d) := by
-  unfold warnings edges
-  generalize hl : d = l
-  rw [← hl]
-  have : ∀ l : List Rec, List.Sublist ((l.flatMap (recWarnings d now)).filterMap cbbpPair)
-      (l.flatMap (fun | .fam f => famEdges f | .indi _ => [])) := by
-    intro l
-    induction l with
-    | nil => simp
-    | cons r l ih =>
-      simp only [List.flatMap_cons, List.filterMap_append]
-      exact List.Sublist.append (rec_cbbp_sublist d now r) ih
-  exact this d
-
-/-- … hence once per pair whenever every (parent, child) pair is listed through one CHIL line
-    of one family only (explicit, decidable guard). -/
-theorem once_per_pair_partial (d : Doc) (now : Date) (h : (edges d).Nodup) :
-    ((warnings d now).filterMap cbbpPair).Nodup :=
-  (cbbp_pairs_sublist d now).nodup h
 
 /-- the two-family witness: `@I1@` born 1 Jan 1900 is HUSB, `@I2@` born 1 Jan 1890 is CHIL, in
     both `@F1@` and `@F2@` -/
@@ -469,18 +444,21 @@ def witness24' : Doc :=
   [.indi ⟨1, [], [⟨.birt, [.ok ⟨1, 1, 1900⟩]⟩]⟩, .indi ⟨2, [], [⟨.birt, [.ok ⟨1, 1, 1890⟩]⟩]⟩,
    .fam ⟨1, some 1, none, [2, 2], []⟩]
 
-/-- defect 24: the pair (I1, I2) is reported twice (replayed on the implementation by the
-    harness: known finding `pair-reported-once-per-chil-line`) -/
-theorem once_per_pair_counterexample :
-    (warnings witness24 ⟨26, 9, 2026⟩).filterMap cbbpPair = [(1, 2), (1, 2)] ∧
-    (warnings witness24' ⟨26, 9, 2026⟩).filterMap cbbpPair = [(1, 2), (1, 2)] ∧
-    ¬ ((warnings witness24 ⟨26, 9, 2026⟩).filterMap cbbpPair).Nodup := by
-  refine ⟨by decide, by decide, by decide⟩
+/-- regression (defect 24): without the pair sets the pair (I1, I2) would be reported twice on
+    both witnesses; with them it is reported once -/
+theorem once_per_pair_regression :
+    (rawWarnings witness24 ⟨26, 9, 2026⟩).filterMap cbbpPair = [(1, 2), (1, 2)] ∧
+    (warnings witness24 ⟨26, 9, 2026⟩).filterMap cbbpPair = [(1, 2)] ∧
+    (childrenBornBeforeParentsRaw witness24' ⟨1, some 1, none, [2, 2], []⟩).filterMap cbbpPair =
+      [(1, 2), (1, 2)] ∧
+    (warnings witness24' ⟨26, 9, 2026⟩).filterMap cbbpPair = [(1, 2)] := by
+  refine ⟨by decide, by decide, by decide, by decide⟩
 
 /-- Order independence: if `d'` is `d` with its records in another order and the CHIL lines of
     each family in another order (`Reordered`), and the individuals' pointers are distinct, the
     two reports are permutations of each other once each sibling pair is written smaller pointer
-    first (`norm`) — the same multiset of warnings. -/
+    first and pair warnings are read without their family context (`norm`: which of several
+    families reports a pair depends on the file order) — the same multiset of warnings. -/
 theorem order_independent (d d' : Doc) (now : Date) (hn : PtrsNodup d) (h : Reordered d d') :
     ((warnings d now).map norm).Perm ((warnings d' now).map norm) := by
   have hi := indiOf_reordered hn h
@@ -488,6 +466,8 @@ theorem order_independent (d d' : Doc) (now : Date) (hn : PtrsNodup d) (h : Reor
   have hcongr : recWarnings d' now = recWarnings d now := by
     funext r; exact recWarnings_congr hi now r
   unfold warnings
+  apply opp_perm
+  unfold rawWarnings
   rw [hcongr]
   exact ((hp.flatMap_right _).map norm).trans (recsEquiv_perm d now he)
 
@@ -568,6 +548,139 @@ theorem exact_is_general (l : Nat) (t : Date) (hd : t.day ≠ 0) (hy1 : 1 ≤ t.
   · simp only [yearsFrac, hf]
   · simp [subErr, exactP]
 
+/-! ### the general-date branch: unparsable dates and event order on parsed values -/
+
+/-- the classification of a parsed value keeps `DateRange.IsValid` -/
+theorem classify_valid (r : DateRange) : (classifyDate r).valid = r.isValid := by
+  unfold classifyDate
+  simp only
+  split
+  · rename_i h
+    simp only [Bool.and_eq_true, beq_iff_eq, bne_iff_ne, ne_eq, Bool.not_eq_true', decide_eq_true_eq] at h
+    obtain ⟨⟨⟨⟨⟨⟨he, _⟩, _⟩, hd⟩, _⟩, _⟩, _⟩ := h
+    simp [DateV.valid, DateRange.isValid, PDate.isZero, ← he, hd]
+  · split
+    · rename_i h
+      simp only [Bool.and_eq_true] at h
+      simp [DateV.valid, DateRange.isValid, h.1.2, h.2]
+    · rfl
+
+theorem dateOf_valid (l : Nat) (v : Str) :
+    (dateOf l v).valid = (parseDateRange v).isValid ∧
+    ((dateOf l v).valid = false → (dateOf l v).label = l) := by
+  unfold dateOf
+  rw [← classify_valid]
+  cases classifyDate (parseDateRange v) <;> simp [relabelDate, DateV.valid, DateV.label]
+
+/-- **unparsable_iff_invalid_parse** (per DATE node): the DATE node at position `l` with value `v`
+    yields an UnparsableDate warning if and only if `NewDateRangeWithString(v)` is not valid
+    (`DateNode.Warnings`; the parser is C04's model). -/
+theorem unparsable_iff_invalid_parse (inFam : Bool) (p l : Nat) (k : EvKind) (v : Str) :
+    unparsable inFam p [⟨k, [dateOf l v]⟩] =
+      if (parseDateRange v).isValid then [] else [Warning.unparsableDate inFam p l] := by
+  obtain ⟨h1, h2⟩ := dateOf_valid l v
+  simp only [unparsable, datesOf, List.flatMap_cons, List.flatMap_nil, List.append_nil, h1]
+  cases hv : (parseDateRange v).isValid with
+  | true => simp
+  | false => rw [hv] at h1; simp [h2 h1]
+
+/-- … and in a whole document: an invalid value in an individual's event is reported -/
+theorem unparsable_of_invalid_parse (d : Doc) (now : Date) (i : Indi) (hi : Rec.indi i ∈ d) (e : Ev)
+    (he : e ∈ i.events) (l : Nat) (v : Str) (hm : dateOf l v ∈ e.dates)
+    (hv : (parseDateRange v).isValid = false) :
+    Warning.unparsableDate false i.ptr l ∈ warnings d now := by
+  obtain ⟨h1, h2⟩ := dateOf_valid l v
+  rw [hv] at h1
+  exact (unparsable_sound_complete d now false i.ptr l).mpr
+    (Or.inl ⟨rfl, i, hi, rfl, e, he, _, hm, h1, h2 h1⟩)
+
+theorem dayS_ok (t : Date) : dayS (.ok t) = t.firstDay := by
+  simp only [dayS, startI, Date.startInstant, nsPerDay]
+  omega
+
+theorem dayE_ok (t : Date) : dayE (.ok t) = t.lastDay := by
+  simp only [dayE, endI, Date.endInstant, nsPerDay]
+  omega
+
+/-- the truncated ends of a general date whose years are 1..9999 are the first day of its start
+    and the last day of its end (C05's calendar) -/
+theorem dayS_gen (l : Nat) (s e : PDate) (h : timeOK s = true) : dayS (.gen l s e) = s.toDate.firstDay := by
+  simp only [dayS, startI, h, if_true, Date.startInstant, nsPerDay]
+  omega
+
+theorem dayE_gen (l : Nat) (s e : PDate) (h : timeOK e = true) : dayE (.gen l s e) = e.toDate.lastDay := by
+  simp only [dayE, endI, h, if_true, Date.endInstant, nsPerDay]
+  omega
+
+/-- one comparison of the event-order check, for dates of every shape -/
+theorem orderPair_eq (p : Nat) (ev fut : EvKind × DateV) :
+    orderPair p ev fut =
+      if ev.2.valid && fut.2.valid &&
+          decide (compare (dayS fut.2) (dayE fut.2) (dayS ev.2) (dayE ev.2) = .entirelyBefore) then
+        [Warning.incorrectEventOrder p fut.1 fut.2 ev.1 ev.2]
+      else [] := by
+  obtain ⟨ek, ed⟩ := ev
+  obtain ⟨fk, fd⟩ := fut
+  unfold orderPair
+  cases ed <;> cases fd <;> simp only []
+  case ok.ok a b =>
+    simp only [compareDates, dayS_ok, dayE_ok, DateV.valid, Bool.true_and]
+    by_cases h : compare b.firstDay b.lastDay a.firstDay a.lastDay = .entirelyBefore <;> simp [h]
+
+/-- **event_order_general**: for dates of any parsed shape whose ranges run forwards, "the `k2`
+    (`x2`) was before the `k1` (`x1`)" is reported exactly when the individual has those two dated
+    events, `k2` belongs to a later group than `k1`, both dates are valid, and `x2` *ends* (last
+    day of its end date) before `x1` *starts* (first day of its start date) — C06 `event_order`
+    on `dayS` / `dayE`, which `dayS_gen` / `dayE_gen` identify with C05's `firstDay` / `lastDay`. -/
+theorem event_order_general (d : Doc) (now : Date) (p : Nat) (k2 : EvKind) (x2 : DateV)
+    (k1 : EvKind) (x1 : DateV) (hf1 : dayS x1 ≤ dayE x1) (hf2 : dayS x2 ≤ dayE x2) :
+    Warning.incorrectEventOrder p k2 x2 k1 x1 ∈ warnings d now ↔
+      ∃ i, Rec.indi i ∈ d ∧ i.ptr = p ∧ ∃ g1 g2, groupOf k1 = some g1 ∧ groupOf k2 = some g2 ∧
+        g1 < g2 ∧ Dated i k1 x1 ∧ Dated i k2 x2 ∧ x1.valid = true ∧ x2.valid = true ∧
+        dayE x2 < dayS x1 := by
+  have hpair : ∀ (q : Nat) (ev fut : EvKind × DateV),
+      Warning.incorrectEventOrder p k2 x2 k1 x1 ∈ orderPair q ev fut ↔
+        p = q ∧ ev = (k1, x1) ∧ fut = (k2, x2) ∧ x1.valid = true ∧ x2.valid = true ∧
+          dayE x2 < dayS x1 := by
+    intro q ev fut
+    rw [orderPair_eq]
+    obtain ⟨ek, ed⟩ := ev
+    obtain ⟨fk, fd⟩ := fut
+    constructor
+    · intro h
+      split at h
+      · rename_i hc
+        simp only [List.mem_singleton, Warning.incorrectEventOrder.injEq] at h
+        obtain ⟨rfl, rfl, rfl, rfl, rfl⟩ := h
+        simp only [Bool.and_eq_true, decide_eq_true_eq] at hc
+        exact ⟨rfl, rfl, rfl, hc.1.1, hc.1.2, (C06.event_order _ _ _ _ hf2 hf1).mp hc.2⟩
+      · simp at h
+    · rintro ⟨rfl, he, hf, hv1, hv2, hlt⟩
+      simp only [Prod.mk.injEq] at he hf
+      obtain ⟨rfl, rfl⟩ := he
+      obtain ⟨rfl, rfl⟩ := hf
+      have := (C06.event_order _ _ _ _ hf2 hf1).mpr hlt
+      simp [hv1, hv2, this]
+  rw [warnings, mem_oncePerPair_other (by simp [Warning.kind]) (by simp [Warning.kind]), mem_warnings_cases]
+  constructor
+  · rintro (⟨i, hi, h | h | h | h⟩ | ⟨f, hf, h | h | h | h | h⟩)
+    all_goals try wrong_kind h
+    unfold incorrectEventOrder at h
+    obtain ⟨n, m, g, fg, hnm, hn, hm, ev, hev, fut, hfut, hw⟩ := (mem_orderFrom _).mp h
+    obtain ⟨rfl, rfl, rfl, hv1, hv2, hlt⟩ := (hpair _ _ _).mp hw
+    obtain ⟨hg1, hd1⟩ := (group_idx hn).mp hev
+    obtain ⟨hg2, hd2⟩ := (group_idx hm).mp hfut
+    exact ⟨i, hi, rfl, n, m, hg1, hg2, hnm, hd1, hd2, hv1, hv2, hlt⟩
+  · rintro ⟨i, hi, rfl, g1, g2, hg1, hg2, hlt, hd1, hd2, hv1, hv2, hday⟩
+    refine Or.inl ⟨i, hi, Or.inl ?_⟩
+    unfold incorrectEventOrder
+    rw [mem_orderFrom]
+    have hg2lt : g2 < 4 := by cases k2 <;> simp [groupOf] at hg2 <;> omega
+    obtain ⟨G1, hG1⟩ := group_idx_exists (i := i) (n := g1) (by omega)
+    obtain ⟨G2, hG2⟩ := group_idx_exists (i := i) (n := g2) hg2lt
+    exact ⟨g1, g2, G1, G2, hlt, hG1, hG2, (k1, x1), (group_idx hG1).mpr ⟨hg1, hd1⟩,
+      (k2, x2), (group_idx hG2).mpr ⟨hg2, hd2⟩, (hpair _ _ _).mpr ⟨rfl, rfl, rfl, hv1, hv2, hday⟩⟩
+
 /-! Non-vacuity: concrete documents that meet the guards and exercise each side (tests, not the
     property). -/
 
@@ -591,7 +704,6 @@ def today : Date := ⟨26, 9, 2026⟩
 example : ExactDates sample ∧ ExactDates witness24 := by decide
 example : DatesWithin (dayOf ⟨1, 1, 1799⟩) (dayOf today - 1) sample ∧
     dayOf today - 1 - dayOf ⟨1, 1, 1799⟩ ≤ 106751 ∧ C05.Full today := by decide
-example : (edges sample).Nodup ∧ ¬ (edges witness24).Nodup := by decide
 example : warnings sample today =
     [.incorrectEventOrder 3 .buri (.ok ⟨1, 3, 1931⟩) .deat (.ok ⟨2, 3, 1931⟩), .individualTooOld 3,
      .multipleSexes 3 2, .unparsableDate false 3 7,
